@@ -1202,7 +1202,7 @@ class History(object):
 CASE_HDR = """From Coq Require Import List ZArith Bool String.
 From PySMT.core Require Import CaseUtil Syntax Manager.
 From PySMT.models Require Import TypeChecker.
-From PySMT.proofs Require Import Manager_proofs.
+From PySMT.proofs Require Import Manager_proofs Manager_nf_proofs.
 Import ListNotations.
 Open Scope bool_scope.
 Open Scope nat_scope.
@@ -1227,7 +1227,7 @@ Fixpoint first_bad (m : list (res id)) (p : list (option nat)) (k : nat) : nat :
   | _, _ => k
   end.
 (* every well-typed, array-value-free node built through the public constructors satisfies the
-   hypothesis of normalize_copy *)
+   hypothesis of normalize_copy; every request of a non-raw history is a public-constructor request (api_req) *)
 Definition nodes_copyable (tb : list content) : bool :=
   forallb (fun i => let t := unfold_tb tb i in
                     negb (array_free t) || match tc t with None => true | Some _ => copyableb t end)
@@ -1236,7 +1236,7 @@ Definition ok (c : case) : bool :=
   let '(raw, n, a, reqs, reps, tabs) := c in
   let (w, m) := wrun (addr_of a) (winit n) reqs in
   replies_ok m reps && list_eqb (list_eqb content_eqb) (map table w) tabs &&
-  (raw || forallb nodes_copyable tabs).
+  (raw || (forallb nodes_copyable tabs && forallb (fun er => api_req (snd er)) reqs)).
 Definition diag (c : case) : nat :=
   let '(raw, n, a, reqs, reps, tabs) := c in
   let (w, m) := wrun (addr_of a) (winit n) reqs in first_bad m reps 0.
